@@ -1,6 +1,10 @@
+mod c20;
+mod c20_net2;
+
 fn main() {
     let ctx = mc_core::Ctx::from_args();
     match ctx.prop.as_str() {
+        "C20" => c20::run(ctx),
         p => mc_core::report::machinery_failure(&format!("mc-net1 does not serve {p} yet")),
     }
 }
